@@ -11,3 +11,4 @@ EXPLANATION += (' The cached_int likelihood is proved equal to the default formu
 from vt.contracts import iface_amp  # noqa: F401,E402
 from vt.contracts import amp_assembly, einsum_sym, selection_alias  # noqa: F401,E402
 from vt.contracts import derivs  # noqa: F401,E402  (cached_int likelihood == default formula incl. clip_log; gradient / Hessian)
+from vt.contracts import strategy_sym  # noqa: F401,E402  (cached_amp == plain amplitude as a polynomial identity)
